@@ -144,10 +144,17 @@ func c18Snapshot(rep *kit.Report, unit string, run int, seed uint64, variant, tr
 		e.account()
 		return
 	}
-	if rng.Bool() {
-		// let the dispatcher record everything first
+	if rng.Bool() || trailing > 0 {
+		// let the dispatcher record everything first.  With a scaled-down
+		// TrailingLogs this is required for a fair scenario: the truncation
+		// must only remove entries whose events were published and recorded
+		// (in production the dispatcher would have to lag >10240 entries).
 		target := e.absorbStore(srv, "a")
-		vfWait(20*time.Second, func() bool { return srv.activity.LastPublishedRaftIndex()+1 >= target })
+		if !vfWait(40*time.Second, func() bool { return srv.activity.LastPublishedRaftIndex()+1 >= target }) && trailing > 0 {
+			e.inconclusive("dispatcher did not catch up before the snapshot")
+			e.account()
+			return
+		}
 	}
 	e.absorbStore(srv, "a")
 	if trailing > 0 {
